@@ -6,7 +6,7 @@ VERIF = os.path.dirname(os.path.dirname(os.path.abspath(__file__)))
 subprocess.run(["/venv/bin/python", os.path.join(VERIF, "tools", "gen_tables.py")], check=True, stdout=subprocess.DEVNULL)
 fp = json.load(open(os.path.join(VERIF, "lean", "QR", "Gen", "fingerprints.json")))
 mf = json.load(open(os.path.join(VERIF, "tools", "modelled_functions.json")))
-keys = sorted({k for g in mf["groups"].values() for k in g} | {k for v in mf.get("roots", {}).values() for k in v}
+keys = sorted({k for g in mf["groups"].values() for k in g} | {k for v in mf.get("roots", {}).values() for k in v if not k.endswith("*")}
               | {k for v in mf.get("cuts", {}).values() for k in v if not k.endswith("*")})
 missing = [k for k in keys if k not in fp]
 assert not missing, missing
